@@ -61,26 +61,37 @@ enum Color {
 `
 
 var wxUniDesc protoreflect.MessageDescriptor
+var wxUniDesc2 protoreflect.MessageDescriptor // the same type, compiled a second time: another descriptor INSTANCE of wt.v1.Uni
 var wxUniCodec *codec.Codec
+
+func wxUniCompile() (protoreflect.MessageDescriptor, error) {
+	res, _, err := compileBundle(newMemFiles(map[string]string{"wt/v1/uni.j5s": wxUniJ5s}), nil)
+	if err != nil {
+		return nil, err
+	}
+	for _, files := range res {
+		for _, f := range files {
+			if md := f.Messages().ByName("Uni"); md != nil {
+				return md, nil
+			}
+		}
+	}
+	return nil, fmt.Errorf("Uni not found")
+}
 
 func wxUniSchema() (protoreflect.MessageDescriptor, *codec.Codec, error) {
 	if wxUniDesc != nil {
 		return wxUniDesc, wxUniCodec, nil
 	}
-	res, _, err := compileBundle(newMemFiles(map[string]string{"wt/v1/uni.j5s": wxUniJ5s}), nil)
+	md, err := wxUniCompile()
 	if err != nil {
 		return nil, nil, err
 	}
-	for _, files := range res {
-		for _, f := range files {
-			if md := f.Messages().ByName("Uni"); md != nil {
-				wxUniDesc = md
-			}
-		}
+	md2, err := wxUniCompile()
+	if err != nil {
+		return nil, nil, err
 	}
-	if wxUniDesc == nil {
-		return nil, nil, fmt.Errorf("Uni not found")
-	}
+	wxUniDesc, wxUniDesc2 = md, md2
 	wxUniCodec = codec.NewCodec()
 	return wxUniDesc, wxUniCodec, nil
 }
@@ -198,6 +209,9 @@ func wireTokDriver(raw json.RawMessage) *Out {
 		msg := dynamicpb.NewMessage(md)
 		t0 := time.Now()
 		qerr := cc.QueryToProto(vals, msg) // a panic is caught by the worker: violation
+		// "any target message type": the long-lived codec has now seen wt.v1.Uni; a message of another descriptor
+		// instance of the same type (a reloaded image) is a target like any other
+		_ = cc.QueryToProto(vals, dynamicpb.NewMessage(wxUniDesc2))
 		out.Nontrivial = len(c.Path) > 1 || len(c.Vals) > 0
 		out.Obs = map[string]any{"query": vals.Encode(), "err": fmt.Sprint(qerr), "ms": time.Since(t0).Milliseconds()}
 		return out
@@ -214,6 +228,7 @@ func wireTokDriver(raw json.RawMessage) *Out {
 		text := wireTokensToBytes(c.Toks, bad)
 		msg := dynamicpb.NewMessage(md)
 		derr := cc.JSONToProto([]byte(text), msg) // a panic is caught by the worker: violation
+		_ = cc.JSONToProto([]byte(text), dynamicpb.NewMessage(wxUniDesc2))
 		real := "ok"
 		if derr != nil {
 			real = "err"
